@@ -3,6 +3,7 @@
    flate.Reader to, on every run, and what compress/flate and zlib are
    compared with. Theorems here: the decoder's verdict and output are a
    function of the bits it consumed only. *)
+From V Require Import Prefix.Code Prefix.GenPrefixesThms Prefix.DecTable Prefix.DecTableSpec Prefix.DecTableThms Prefix.DecCanonThms.
 From V Require Import Window.Dict Window.DictSpec Window.DictThms.
 From V Require Import Base.DepthThms Flate.Depth XFlate.Reader XFlate.RoundTripStmt Flate.Compose.
 From V Require Import Base.Prelude Base.Prog Base.ProgThms Flate.Spec Flate.Thms Flate.Safe Flate.Fuel Flate.Canon Flate.CanonLink Base.FuelThms.
@@ -113,3 +114,15 @@ Theorem flate_window_refines_lz77 : forall size recycled ops st0,
                      wsp_run (wsp_init size) ops (map Ok obs) = Some s' /\ Inv st' s'.
 Proof. exact dict_refines. Qed.
 Print Assumptions flate_window_refines_lz77.
+
+(* TABLE DECODING = CANONICAL CODE: for every complete length assignment (what the block header
+   parser accepts) the two-level table built by prefix.Decoder.Init from the bit-reversed RFC 1951
+   canonical codes - whatever the recycled arrays held - decodes every canonical code word,
+   followed by any bits, to its symbol and length *)
+Theorem flate_decoder_tables_decode_the_canonical_code : forall lens L oldC oldL,
+  lens_pos lens -> complete lens = true -> (2 <= length lens)%nat -> max_len lens <= L -> L <= 31 ->
+  exists d, dec_init oldC oldL (canon_codes lens) = IOk d /\ tables_ok (canon_codes lens) d /\
+    forall s l c rest, In (s, l, c) (canonical lens) ->
+      dec_lookup d (reverse_bits c l + 2 ^ l * rest) = Some (s mod 2 ^ 27, l).
+Proof. exact canon_table_decodes. Qed.
+Print Assumptions flate_decoder_tables_decode_the_canonical_code.
